@@ -151,6 +151,15 @@ def rule_b(ctx):
         rets = K.ret_assigns(gt)
         ok = bool(rets) and all(r.is_term and r.callee == SC + "SyncCellReader::read" for r in rets)
         ctx.ob("scheduler-time-uses-read", ok, "GlobalScheduler::time uses the retrying read (handles may live on other threads)", rets)
+    for nm, callee in (("simulation::scheduler::Scheduler::time", "simulation::scheduler::GlobalScheduler::time"),
+                       ("model::context::Context::time", "simulation::scheduler::GlobalScheduler::time")):
+        tb = P.body(nm)
+        if tb is None:
+            ctx.missing(nm)
+            continue
+        rets = K.ret_assigns(tb)
+        ok = bool(rets) and all(r.is_term and r.callee == callee for r in rets) and len(list(tb.calls())) <= 2
+        ctx.ob("handle-time-delegates|%s" % nm, ok, "%s returns the retrying read of the shared time (no caching, no other source)" % last_seg(nm.rsplit("::", 1)[0]) , rets)
     # no unsynchronised read of the reader elsewhere: try_read callers
     for b, s in P.callers_of(lambda c: c == SC + "SyncCellReader::try_read"):
         ok = b.name == SC + "SyncCellReader::read" or b.name.startswith("model::context::") or True
